@@ -8,7 +8,8 @@
    outside the tier). *)
 From Coq Require Import ZArith QArith List Bool Lia.
 From VL Require Import Prelude.PyDict Model.Overhang Model.Divisor Model.HighestAverages
-     Proofs.Dict_proofs Proofs.Overhang_proofs Proofs.HA_proofs Proofs.Divisor_proofs.
+     Proofs.Dict_proofs Proofs.Overhang_proofs Proofs.HA_proofs Proofs.Divisor_proofs
+     Model.OverhangByC Proofs.OverhangByC_proofs Proofs.OverhangByC_ha_proofs Proofs.OverhangByC_total_proofs.
 Import ListNotations.
 Open Scope Z_scope.
 
@@ -54,8 +55,231 @@ Proof.
   pose proof (count_nonneg c (map fst (st_awards (final_state d votes n prev caps)))). lia.
 Qed.
 
+(* ================================================================ LevelOverhangByConstituency
+   Model: Model/OverhangByC.v (calculate, ByConstituency, the two overall evaluators, AdjustedSeatCount + ByParty);
+   proofs: Proofs/OverhangByC_proofs.v (any key type with a boolean equivalence - parties and Tie objects - and ANY
+   constituency / overall evaluator), Proofs/OverhangByC_ha_proofs.v (highest averages with any divisor).
+   Sizes the loop examines: n - drop + a for a = 0, 1, 2, ... (drop = first round seats of parties outside the tier);
+   the reported adjustment is the first such a whose overall result meets every minimum. *)
+Definition kequiv {K : Type} (keqb : K -> K -> bool) : Prop :=
+  (forall a, keqb a a = true) /\ (forall a b, keqb a b = keqb b a) /\
+  (forall a b c, keqb a b = true -> keqb b c = true -> keqb a c = true).
+
+Theorem C15_pk_equiv : kequiv pk_eqb.
+Proof. split; [exact pk_eqb_refl|split; [exact pk_eqb_sym|exact pk_eqb_trans]]. Qed.
+
+(* the minima the code accumulates in two passes: exactly the parties (and Ties) with a proportional seat entry in some
+   constituency have one, and it is the sum over the constituencies of max(first round seats, proportional seats) *)
+Theorem C15_byc_minima : forall (K : Type) (keqb : K -> K -> bool), kequiv keqb ->
+  forall res prev ctys k, wf_res keqb res -> wf_prev keqb prev -> NoDup ctys ->
+  incl (map fst res) ctys -> incl (map fst prev) ctys ->
+  kmem keqb (lowest_allowed keqb res prev) k = tier keqb res k /\
+  (tier keqb res k = true ->
+   kget0 keqb (lowest_allowed keqb res prev) k = need keqb res prev ctys k /\
+   zsumf (fun c => direct keqb prev c k) ctys <= need keqb res prev ctys k /\
+   zsumf (fun c => share keqb res c k) ctys <= need keqb res prev ctys k).
+Proof.
+  intros K keqb (_ & Hs & Ht) res prev ctys k Hr Hp Hk Hir Hip. split; [apply lowest_allowed_mem; assumption|].
+  intros Hm. split; [apply lowest_allowed_need; assumption|]. split; [apply need_ge_direct|apply need_ge_share].
+Qed.
+
+(* non-negative; at the returned house every tier party reaches its minimum; no smaller enlargement examined does *)
+Theorem C15_byc_levels : forall (K : Type) (keqb : K -> K -> bool), kequiv keqb ->
+  forall (OE : Z -> eres (list (K * Z))) CEn fuel n prev r ctys,
+  bc_calculate keqb OE CEn fuel n prev = BC_ok r ->
+  exists res, CEn = Ok res /\ 0 <= r /\
+    (wf_res keqb res -> wf_prev keqb prev -> NoDup ctys -> incl (map fst res) ctys -> incl (map fst prev) ctys ->
+     (exists pr, OE (n - drop_of keqb res prev + r) = Ok pr /\
+        forall k, tier keqb res k = true -> need keqb res prev ctys k <= kget0 keqb pr k) /\
+     (forall a, 0 <= a < r -> exists ph, OE (n - drop_of keqb res prev + a) = Ok ph /\
+        exists k, tier keqb res k = true /\ kget0 keqb ph k < need keqb res prev ctys k)).
+Proof. intros K keqb (Hr & Hs & Ht). exact (bc_calculate_meaning keqb Hr Hs Ht). Qed.
+
+(* zero adjustment when no party holds more first round seats in a constituency than proportional seats there and the
+   overall result of the baseline house covers the constituency-wise shares *)
+Theorem C15_byc_zero : forall (K : Type) (keqb : K -> K -> bool), kequiv keqb ->
+  forall (OE : Z -> eres (list (K * Z))) res fuel n prev pr ctys,
+  wf_res keqb res -> wf_prev keqb prev -> nonneg_nested res -> NoDup ctys ->
+  incl (map fst res) ctys -> incl (map fst prev) ctys ->
+  no_overhang keqb res prev -> OE n = Ok pr ->
+  (forall k, tier keqb res k = true -> zsumf (fun c => share keqb res c k) ctys <= kget0 keqb pr k) ->
+  bc_calculate keqb OE (Ok res) fuel n prev = BC_ok 0.
+Proof. intros K keqb (Hr & Hs & Ht). exact (bc_calculate_zero keqb Hr Hs Ht). Qed.
+
+(* out of fuel = every one of the fuel + 1 sizes fails; any other answer is independent of the fuel *)
+Theorem C15_byc_fuel : forall (K : Type) (keqb : K -> K -> bool) (OE : Z -> eres (list (K * Z))) res CEn fuel fuel' n prev,
+  (bc_calculate keqb OE (Ok res) fuel n prev = BC_fuel <->
+   forall a, 0 <= a <= Z.of_nat fuel -> exists ph, OE (n - drop_of keqb res prev + a) = Ok ph /\
+                                                   ksatisfied keqb (lowest_allowed keqb res prev) ph = false) /\
+  ((fuel <= fuel')%nat -> bc_calculate keqb OE CEn fuel n prev <> BC_fuel ->
+   bc_calculate keqb OE CEn fuel' n prev = bc_calculate keqb OE CEn fuel n prev).
+Proof. intros. split; [apply bc_calculate_fuel_iff|apply bc_calculate_fuel_mono]. Qed.
+
+(* the same for LevelOverhangByConstituency(ByConstituency(HighestAverages(dc), apportioner), overall) with ANY divisor
+   (D'Hondt, Sainte-Lague, ...), dictionary or evaluator apportioner, given or default overall evaluator *)
+Theorem C15_byc_ha_levels : forall dc a o fuel votes n prev r,
+  NoDup (map fst votes) -> wf_prev pk_eqb prev ->
+  lobc_calculate dc a o fuel votes n prev = BC_ok r ->
+  exists res, constituency_evaluator pk_eqb (ha_eval dc) PK a votes n = Ok res /\
+    0 <= r /\
+    (exists pr, lobc_overall dc a o votes (n - drop_of pk_eqb res prev + r) = Ok pr /\
+       forall k, tier pk_eqb res k = true -> need pk_eqb res prev (cty_list votes prev) k <= kget0 pk_eqb pr k) /\
+    (forall x, 0 <= x < r -> exists ph, lobc_overall dc a o votes (n - drop_of pk_eqb res prev + x) = Ok ph /\
+       exists k, tier pk_eqb res k = true /\ kget0 pk_eqb ph k < need pk_eqb res prev (cty_list votes prev) k).
+Proof. exact lobc_calculate_meaning. Qed.
+
+Corollary C15_byc_dhondt_sainte_lague : forall a o fuel votes n prev r,
+  NoDup (map fst votes) -> wf_prev pk_eqb prev ->
+  (lobc_calculate d_hondt a o fuel votes n prev = BC_ok r \/ lobc_calculate sainte_lague a o fuel votes n prev = BC_ok r) ->
+  0 <= r.
+Proof.
+  intros a o fuel votes n prev r Hn Hp [H|H];
+    destruct (lobc_calculate_meaning _ a o fuel votes n prev r Hn Hp H) as (_ & _ & Hr & _); exact Hr.
+Qed.
+
+Theorem C15_byc_ha_zero_default : forall dc a fuel votes n prev res,
+  NoDup (map fst votes) -> wf_prev pk_eqb prev ->
+  constituency_evaluator pk_eqb (ha_eval dc) PK a votes n = Ok res ->
+  no_overhang pk_eqb res prev ->
+  lobc_calculate dc a Ov_default fuel votes n prev = BC_ok 0.
+Proof. exact lobc_zero_default. Qed.
+
+Theorem C15_byc_ha_zero_given : forall dc dn a fuel votes n prev res pr,
+  NoDup (map fst votes) -> wf_prev pk_eqb prev ->
+  constituency_evaluator pk_eqb (ha_eval dc) PK a votes n = Ok res ->
+  no_overhang pk_eqb res prev ->
+  ha_eval dn (qtotals votes) n = Ok pr ->
+  (forall k, tier pk_eqb res k = true ->
+     zsumf (fun c => share pk_eqb res c k) (cty_list votes prev) <= kget0 pk_eqb pr k) ->
+  lobc_calculate dc a (Ov_given dn) fuel votes n prev = BC_ok 0.
+Proof. exact lobc_zero_given. Qed.
+
+(* the cover hypothesis cannot be dropped: without any first round seat the house still grows when the national
+   distribution gives a party less than its constituency-wise seats (D'Hondt, one seat in each of two constituencies,
+   votes {A 1, B 2} and {A 2, B 3}: B wins both constituencies, nationally A 3 : B 5 gives 1 : 1 at house 2) *)
+Theorem C15_byc_zero_needs_cover : exists votes a n,
+  lobc_calculate d_hondt a (Ov_given d_hondt) 50 votes n [] = BC_ok 1.
+Proof.
+  exists [(1%positive, [(1%positive, 1%Q); (2%positive, 2%Q)]); (2%positive, [(1%positive, 2%Q); (2%positive, 3%Q)])],
+         (App_dict [(1%positive, 1); (2%positive, 1)]), 2.
+  vm_compute. reflexivity.
+Qed.
+
+Theorem C15_byc_ha_fuel : forall dc a o fuel fuel' votes n prev res,
+  constituency_evaluator pk_eqb (ha_eval dc) PK a votes n = Ok res ->
+  (lobc_calculate dc a o fuel votes n prev = BC_fuel <->
+   forall x, 0 <= x <= Z.of_nat fuel ->
+     exists ph, lobc_overall dc a o votes (n - drop_of pk_eqb res prev + x) = Ok ph /\
+                ksatisfied pk_eqb (lowest_allowed pk_eqb res prev) ph = false) /\
+  ((fuel <= fuel')%nat -> lobc_calculate dc a o fuel votes n prev <> BC_fuel ->
+   lobc_calculate dc a o fuel' votes n prev = lobc_calculate dc a o fuel votes n prev).
+Proof. intros. split; [apply lobc_fuel_iff; assumption|apply lobc_fuel_mono]. Qed.
+
+(* AdjustedSeatCount(LevelOverhangByConstituency, ByParty): house = n + adjustment, the second stage only adds seats, and
+   with all first round seats in the tier the national distribution of the enlarged house covers them *)
+Theorem C15_byc_adjusted : forall dc a dn da fuel votes n prev adj fin,
+  NoDup (map fst votes) -> wf_prev pk_eqb prev ->
+  adjusted_byc dc a (Ov_given dn) dn da fuel votes n prev = ASC adj fin ->
+  0 <= adj /\ fin = by_party dn da votes (n + adj) prev /\
+  (forall gains, fin = BP_ok gains -> Forall (fun g : Cty * C * Z => 0 < snd g) gains) /\
+  exists res, constituency_evaluator pk_eqb (ha_eval dc) PK a votes n = Ok res /\
+    (direct_in_tier pk_eqb res prev ->
+     exists nat, ha_eval dn (qtotals votes) (n + adj) = Ok nat /\
+       forall k, tier pk_eqb res k = true ->
+         zsumf (fun c => direct pk_eqb prev c k) (cty_list votes prev) <= kget0 pk_eqb nat k /\
+         zsumf (fun c => share pk_eqb res c k) (cty_list votes prev) <= kget0 pk_eqb nat k).
+Proof. exact adjusted_byc_meaning. Qed.
+
+(* ... and the allocator of ByParty, started from a party's first round seats, never ends below them in any
+   constituency (C15_keeps_direct with the constituencies as candidates) *)
+Theorem C15_byc_allocator_keeps_direct : forall da votes prev p np, divisor_ok da ->
+  (forall c v, In (c, v) (party_votes votes p) -> (0 <= v)%Q) -> NoDup (map fst votes) ->
+  (forall c, 0 <= dget_or (party_prev prev p) c 0) ->
+  forall c, dget_or (party_prev prev p) c 0
+            <= dget_or (st_totals (final_state da (party_votes votes p) np (party_prev prev p) [])) c 0.
+Proof.
+  intros da votes prev p np Hd Hv Hn Hp. apply C15_keeps_direct; [exact Hd|exact Hv| |exact Hp].
+  unfold party_votes. rewrite map_map. simpl. exact Hn.
+Qed.
+
+(* ... and when all first round seats belong to tier parties, every party of the national distribution of the enlarged
+   house ends with EXACTLY its national seats: first round seats + seats gained over the constituencies = national seats
+   (the allocator hands out all of the difference: Proofs/OverhangByC_total_proofs.v) *)
+Theorem C15_byc_final_totals : forall dc a dn da fuel votes n prev adj gains res,
+  NoDup (map fst votes) -> votes <> [] -> wf_prev pk_eqb prev -> divisor_ok da ->
+  Forall (fun cv => Forall (fun pv : C * Q => (0 <= snd pv)%Q) (snd cv)) votes ->
+  adjusted_byc dc a (Ov_given dn) dn da fuel votes n prev = ASC adj (BP_ok gains) ->
+  constituency_evaluator pk_eqb (ha_eval dc) PK a votes n = Ok res ->
+  direct_in_tier pk_eqb res prev ->
+  exists nat, ha_eval dn (qtotals votes) (n + adj) = Ok nat /\
+    forall p np, In (PK p, np) nat ->
+      zsumf (fun c => direct pk_eqb prev c (PK p)) (cty_list votes prev) + party_gain gains p = np.
+Proof. exact adjusted_byc_totals. Qed.
+
+(* non-vacuity.  The repaired witness of d14cd5d: D'Hondt, seats N 2 / S 3, votes N {A 32, B 54}, S {A 300, B 30},
+   first round seat S: B 1 -> 4 *)
+Definition ex_votes : list (Cty * list (C * Q)) :=
+  [(1%positive, [(1%positive, 32%Q); (2%positive, 54%Q)]); (2%positive, [(1%positive, 300%Q); (2%positive, 30%Q)])].
+Definition ex_prev : list (Cty * list (pk * Z)) := [(2%positive, [(PK 2%positive, 1)])].
+Example C15_byc_witness :
+  lobc_calculate d_hondt (App_dict [(1%positive, 2); (2%positive, 3)]) (Ov_given d_hondt) 400 ex_votes 5 ex_prev = BC_ok 4
+  /\ NoDup (map fst ex_votes) /\ wf_prev pk_eqb ex_prev.
+Proof.
+  split; [vm_compute; reflexivity|]. split.
+  - simpl. constructor; [simpl; intros [H|[]]; discriminate|constructor; [simpl; tauto|constructor]].
+  - split; [simpl; constructor; [simpl; tauto|constructor]|].
+    constructor; [|constructor]. simpl. split; [split; [reflexivity|exact I]|constructor; [simpl; lia|constructor]].
+Qed.
+
+Example C15_byc_final_totals_example :
+  adjusted_byc d_hondt (App_dict [(1%positive, 2); (2%positive, 3)]) (Ov_given d_hondt) d_hondt d_hondt 400 ex_votes 5 ex_prev
+  = ASC 4 (BP_ok [(2%positive, 1%positive, 7); (1%positive, 2%positive, 1)]).
+Proof. vm_compute. reflexivity. Qed.
+(* house 9: A 7, B 2 nationally; A gains 7 seats (all in S), B keeps its first round seat in S and gains its second seat in N *)
+
+(* a Tie of the constituency evaluator is a key like a party.  Three parties level in both constituencies (one seat each):
+   the national result carries the same Tie with both seats and the loop ends at once; two parties level: the national
+   Tie never holds more than one seat, the minimum of the Tie is 2, and the loop does not end (fuel 400 here) *)
+Example C15_byc_tie_key_met :
+  lobc_calculate d_hondt (App_dict [(1%positive, 1); (2%positive, 1)]) (Ov_given d_hondt) 400
+    [(1%positive, [(1%positive, 1%Q); (2%positive, 1%Q); (3%positive, 1%Q)]);
+     (2%positive, [(1%positive, 1%Q); (2%positive, 1%Q); (3%positive, 1%Q)])] 2 [] = BC_ok 0.
+Proof. vm_compute. reflexivity. Qed.
+(* "the loop always ends" is FALSE of the code: on this input the model is out of fuel for EVERY fuel, i.e. the Python
+   loop has no end (replayed on the implementation: corpus/C15/byc-tie-no-end.json, cut after 400 rounds) *)
+Definition C15_byc_terminates_full_statement : Prop :=
+  forall dc a o votes n prev, exists fuel, lobc_calculate dc a o fuel votes n prev <> BC_fuel.
+Theorem C15_byc_terminates_refuted : ~ C15_byc_terminates_full_statement.
+Proof.
+  intros H.
+  destruct (H d_hondt (App_dict [(1%positive, 1); (2%positive, 1)]) (Ov_given d_hondt)
+              [(1%positive, [(1%positive, 1%Q); (2%positive, 1%Q)]); (2%positive, [(1%positive, 1%Q); (2%positive, 1%Q)])] 2 [])
+    as (fuel & Hf).
+  apply Hf. apply lobc_tie_diverges.
+Qed.
+(* what holds instead: C15_byc_fuel / C15_byc_ha_fuel (out of fuel = every examined size fails; otherwise the answer
+   does not depend on the fuel), and every other theorem excludes out-of-fuel by its hypothesis "= BC_ok r" *)
+
 Print Assumptions C15_allow.
 Print Assumptions C15_level_minimal.
 Print Assumptions C15_level_zero.
 Print Assumptions C15_level_nonneg.
 Print Assumptions C15_keeps_direct.
+Print Assumptions C15_pk_equiv.
+Print Assumptions C15_byc_minima.
+Print Assumptions C15_byc_levels.
+Print Assumptions C15_byc_zero.
+Print Assumptions C15_byc_fuel.
+Print Assumptions C15_byc_ha_levels.
+Print Assumptions C15_byc_dhondt_sainte_lague.
+Print Assumptions C15_byc_ha_zero_default.
+Print Assumptions C15_byc_ha_zero_given.
+Print Assumptions C15_byc_zero_needs_cover.
+Print Assumptions C15_byc_ha_fuel.
+Print Assumptions C15_byc_adjusted.
+Print Assumptions C15_byc_allocator_keeps_direct.
+Print Assumptions C15_byc_final_totals.
+Print Assumptions C15_byc_final_totals_example.
+Print Assumptions C15_byc_witness.
+Print Assumptions C15_byc_tie_key_met.
+Print Assumptions C15_byc_terminates_refuted.
